@@ -188,6 +188,9 @@ class IntermediateCodeGen(AbstractCodeGen):
 
                 if parent not in self.symbolTable[module]:
                     raise error.PySmiSemanticError('no symbol "%s" in module "%s"' % (parent, module))
+                if 'oid' not in self.symbolTable[module][parent]:
+                    raise error.PySmiSemanticError('symbol "%s" in module "%s" is not an OID' % (parent, module))
+
                 if (module, parent) in _seen:
                     raise error.PySmiSemanticError('circular OID definition of symbol "%s" in module "%s"' % (parent, module))
 
